@@ -910,7 +910,7 @@ func c32Batching(t *testing.T) {
 					requests := buildRelocateBatchRequests(c32Departed, actors[:na], grains[:ng])
 					count := map[string]int{}
 					for _, rq := range requests {
-						if n := len(rq.GetActors()) + len(rq.GetGrains()); n > defaultRelocationBatchSize || n == 0 {
+						if n := len(rq.GetActors()) + len(rq.GetGrains()); n > defaultRelocationBatchSize {
 							e.Fail("batch-size-out-of-bounds", input, "a request carries %d items", n)
 						}
 						for _, a := range rq.GetActors() {
